@@ -11,7 +11,7 @@ KNOWN = os.path.join(VERIF, "KNOWN_FINDINGS.txt")
 
 TRUSTED_BASE = [
     "Coq 8.16.1 kernel (coqc, full .vo builds) incl. its vm_compute machine; no native_compute",
-    "axioms: none declared here; per-theorem Print Assumptions output is recorded in 'axioms'",
+    "axioms: none declared here; per-theorem Print Assumptions output is recorded in 'axioms' (only C15's *_value theorems depend on any: the standard library's ClassicalDedekindReals.sig_forall_dec, sig_not_dec, FunctionalExtensionality.functional_extensionality_dep, Classical_Prop.classic, through Flocq/Reals)",
     "translator/*.py + clang 14 JSON AST (generated definitions are bridge-proved equal to the hand model)",
     "extraction (ExtrOcamlBasic only; N/positive stay inductive) + OCaml 4.13.1, for the correspondence only",
     "harness/hx.c, coq/extract/driver.ml, generators, sanitizers (correspondence check)",
